@@ -164,6 +164,18 @@ def builders(r0: int, r1: int, n0: int, v0: int, v1: int, d0: int, d1: int, d2: 
         mv = e.response(None)
         out = mv.tobytes()
         closes = True
+    elif which == 'reuse':
+        # one header dict used for two responses with different bodies (builders write into the caller's dict)
+        shared = {b'X-' + B(n0): B(v0, v1)}
+        first = build_http_response(200, reason=b'OK', headers=shared, body=B(d0, d1, d2)[:CFG['blen1']] or None)
+        why1 = refhttp.response_wellformed(first)
+        if why1 is not None:
+            return fail('first response from a shared header dict is not well-formed', why=why1)
+        out = build_http_response(200, reason=b'OK', headers=shared, body=body if blen else None)
+    elif which == 'own_cl':
+        # the caller states its own (correct) Content-Length
+        hdrs = {b'Content-Length': b'%d' % blen, b'X-' + B(n0): B(v0)}
+        out = R.okResponse(content=body if blen else None, headers=hdrs, compress=False).tobytes()
     else:
         raise ValueError(which)
     code = CFG.get('code', 200)
@@ -183,6 +195,8 @@ def canned_vec(i):
     begin()
     pk = _canned() + [R.okResponse(b'x' * 100, compress=True, min_compression_length=20).tobytes(),
                       R.okResponse(b'hello', {b'A': b'b'}, conn_close=True).tobytes()]
+    shared = {b'Content-Length': b'3'}
+    pk = pk + [R.okResponse(b'abc', shared).tobytes(), R.okResponse(b'y' * 60, shared, compress=True, min_compression_length=20).tobytes()]
     p = pk[i % len(pk)]
     why = refhttp.response_wellformed(p)
     if why is not None:
@@ -194,7 +208,7 @@ def canned_vec(i):
     m = refhttp.read_message(p, True)
     if m['body'] != body or int(m['start'][1]) != st:
         return fail('h11 and the reference reader disagree', pkt=repr(p[:80]))
-    if dict(hs).get(b'content-encoding') == b'gzip' and gzip.decompress(body) != b'x' * 100:
+    if dict(hs).get(b'content-encoding') == b'gzip' and gzip.decompress(body) not in (b'x' * 100, b'y' * 60):
         return fail('compressed body does not decompress to the content')
     return ok()
 
@@ -242,10 +256,17 @@ def obligations(tier):
         for close in (False, True):
             obs.append({'name': 'builders.ok.b%d%s' % (blen, '.close' if close else ''), 'fn': 'builders', 'group': 'builders',
                         'cfg': {'which': 'ok', 'blen': blen, 'close': close, 'hdr': True}, 'timeout': 200})
+    for b1 in (0, 1, 3):
+        for b2 in (0, 2, 3):
+            if b1 != b2:
+                obs.append({'name': 'builders.reuse.b%d_then_b%d' % (b1, b2), 'fn': 'builders', 'group': 'builders',
+                            'cfg': {'which': 'reuse', 'blen1': b1, 'blen': b2}, 'timeout': 200})
+    for blen in (0, 2):
+        obs.append({'name': 'builders.own_cl.b%d' % blen, 'fn': 'builders', 'group': 'builders', 'cfg': {'which': 'own_cl', 'blen': blen}, 'timeout': 200})
     obs.append({'name': 'builders.redirect', 'fn': 'builders', 'group': 'builders', 'cfg': {'which': 'redirect', 'blen': 0}, 'timeout': 200})
     obs.append({'name': 'builders.seeother', 'fn': 'builders', 'group': 'builders', 'cfg': {'which': 'seeother', 'blen': 0}, 'timeout': 200})
     obs.append({'name': 'concrete.canned_h11', 'kind': 'concrete', 'fn': 'canned_vec', 'cfg': {}, 'group': 'concrete',
-                'args_list': [[i] for i in range(9)], 'timeout': 60})
+                'args_list': [[i] for i in range(11)], 'timeout': 60})
     return obs
 
 
